@@ -733,6 +733,8 @@ fn create_parent_dirs(
 /// error.
 fn remove_old_file(disk_path: &Path) -> Result<bool, CheckoutError> {
     reject_reserved_existing_path(disk_path)?;
+    #[cfg(jj_vcs_jj_verif)]
+    crate::verif_hooks::point("wc.remove", &disk_path.to_string_lossy());
     match fs::remove_file(disk_path) {
         Ok(()) => Ok(true),
         Err(err) if err.kind() == io::ErrorKind::NotFound => Ok(false),
@@ -2057,6 +2059,8 @@ impl TreeState {
         exec_bit: ExecBit,
         apply_eol_conversion: bool,
     ) -> Result<FileState, CheckoutError> {
+        #[cfg(jj_vcs_jj_verif)]
+        crate::verif_hooks::point("wc.write", &disk_path.to_string_lossy());
         let mut file = File::options()
             .write(true)
             .create_new(true) // Don't overwrite un-ignored file. Don't follow symlink.
@@ -2099,6 +2103,8 @@ impl TreeState {
     }
 
     fn write_symlink(&self, disk_path: &Path, target: String) -> Result<FileState, CheckoutError> {
+        #[cfg(jj_vcs_jj_verif)]
+        crate::verif_hooks::point("wc.write", &disk_path.to_string_lossy());
         let target = symlink_target_convert_to_disk(&target);
 
         if cfg!(windows) {
@@ -2141,6 +2147,8 @@ impl TreeState {
         contents: &[u8],
         exec_bit: ExecBit,
     ) -> Result<FileState, CheckoutError> {
+        #[cfg(jj_vcs_jj_verif)]
+        crate::verif_hooks::point("wc.write", &disk_path.to_string_lossy());
         let contents = self
             .target_eol_strategy
             .convert_eol_for_update(contents)
